@@ -310,6 +310,16 @@ impl Prop for C16 {
                     }
                 }
             };
+            match (&op, st) {
+                (Op::Break, St::Running) => ctx.count("fault.break@running"),
+                (Op::Break, _) => ctx.count("fault.break@awaiting"),
+                (Op::Reply(_), _) => ctx.count("fault.reply"),
+                (Op::Line(t), _) if t == "CONT" => ctx.count("fault.cont"),
+                (Op::Line(t), _) if t == "RUN" => ctx.count("fault.run"),
+                (Op::Line(t), _) if t.starts_with(|c: char| c.is_ascii_digit()) => ctx.count("fault.edit"),
+                (Op::Line(_), _) => ctx.count("fault.immediate_statement"),
+                _ => {}
+            }
             ops.push(op.clone());
             let risky = matches!(&op, Op::Line(t) if t.contains("DIM") || t.matches(',').count() >= 3 || t.len() > 600);
             if ctx.announce_all || risky {
